@@ -67,8 +67,9 @@ JudgeSeg(st, e) ==
   IN IF phase = "begin"
      THEN <<"ok", PutH(st, k, [h EXCEPT !.maybe = @ \cup {s}, !.synflight = (@ \/ e.syn)])>>
      ELSE IF GetC(st, e.c).completes > 0
-     THEN \* segments handed in after the stream completed are ignored (the connection is closed or gone)
-          <<"ok", PutH(st, k, [h EXCEPT !.maybe = @ \ {s}])>>
+     THEN \* a segment handed in after the stream completed is ignored by a closed connection - or it opens the
+          \* next incarnation, whose (lazily logged) "new" has not been seen yet: in that case it stays in flight
+          <<"ok", IF phase = "end" THEN st ELSE PutH(st, k, [h EXCEPT !.maybe = @ \ {s}])>>
      ELSE LET h1 == [h EXCEPT !.segs = @ \cup {s}, !.maybe = @ \ {s}]
               h2 == IF ~h.started /\ e.syn THEN [h1 EXCEPT !.started = TRUE, !.next = 0, !.kept = 0]
                     ELSE IF ~h.started /\ e.force THEN [h1 EXCEPT !.started = TRUE, !.next = e.lo, !.kept = e.lo]
